@@ -310,60 +310,44 @@ func delimCorpus(c *Ctx) {
 	}
 	for _, s := range streams {
 		for _, max := range []int64{0, -1, 1, 2, 3, -2, 1<<63 - 1, -1 << 63} {
-			if max < 0 || max > 1<<30 {
-				// unlimited: do not let the implementation allocate absurd amounts
-				if sz, n := protowire.ConsumeVarint(s); n > 0 && sz > 64<<20 && sz <= 1<<48 {
-					continue
-				}
-			}
 			sz0, _ := protowire.ConsumeVarint(s)
 			for ki, k := range []delimReaderKind{plain, buf16, one} {
 				for _, terr := range []bool{false, true} {
-					if sz0 >= 1<<20 && sz0 <= 1<<48 && sz0 <= delimEffMax(max) && (ki == 2 || terr || (max != 0 && max != -1)) {
+					if sz0 >= 1<<20 && sz0 <= 4<<20 && sz0 <= delimEffMax(max) && (ki == 2 || terr || (max != 0 && max != -1)) {
 						continue // megabyte allocations: a few combinations are enough
 					}
 					cl := delimRawRead(c, max, terr, k, s)
-					delimKnownF15(c, cl, max, s)
+					delimNoPanic(c, cl, max, s)
 				}
 			}
 		}
 	}
-	// F15: MaxSize=-1, sizes above the allocator limit
+	// regression inputs of the repaired F15: a size prefix the stream cannot back,
+	// with the limit disabled, is a truncated stream (io.ErrUnexpectedEOF), never a panic
 	for _, s := range [][]byte{
-		{0xff, 0xff, 0xff, 0xff, 0xff, 0xff, 0xff, 0xff, 0x7f},
-		{0x81, 0x80, 0x80, 0x80, 0x80, 0x80, 0x80, 0x01},
-		{0x81, 0x80, 0x80, 0x80, 0x80, 0x80, 0x40, 0x01, 0x02},
+		{0xff, 0xff, 0xff, 0xff, 0xff, 0xff, 0xff, 0xff, 0x7f},       // 2^63-1, no body
+		{0x81, 0x80, 0x80, 0x80, 0x80, 0x80, 0x80, 0x01},             // 2^49+1, no body
+		{0x81, 0x80, 0x80, 0x80, 0x80, 0x80, 0x40, 0x01, 0x02},       // 2^48+1, short body
+		{0x81, 0x80, 0x80, 0x02, 0x08, 0x01, 0x10, 0x02},             // 4 MiB + 1 (just above maxPreallocSize), short body
+		{0x80, 0x80, 0x80, 0x02, 0x08, 0x01},                         // exactly 4 MiB, short body
+		{0x80, 0x80, 0x80, 0x80, 0x01, 0x08},                         // 256 MiB, short body
 	} {
-		for _, k := range []delimReaderKind{plain, buf16} {
+		for _, k := range []delimReaderKind{plain, buf16, one} {
 			cl := delimRawRead(c, -1, false, k, s)
-			delimKnownF15(c, cl, -1, s)
+			delimNoPanic(c, cl, -1, s)
+			if len(cl) != 1 || cl[0] != "ueof" {
+				c.PropFail("C27", "unbacked size prefix with MaxSize=-1: want io.ErrUnexpectedEOF, got ["+strings.Join(cl, " ")+"]", k.name, HexB(s))
+			}
+			c.Stat("regression_F15")
 		}
 	}
 }
 
-// delimKnownF15 recognises exactly: a recovered panic while the size read is
-// above the allocator limit 2^48 and within the effective maximum.
-func delimKnownF15(c *Ctx, classes []string, max int64, stream []byte) {
-	if len(classes) == 0 || classes[len(classes)-1] != "panic" {
-		return
+// delimNoPanic: UnmarshalFrom never panics.
+func delimNoPanic(c *Ctx, classes []string, max int64, stream []byte) {
+	if len(classes) > 0 && classes[len(classes)-1] == "panic" {
+		c.PropFail("C27", "panic in UnmarshalFrom", HexZ(max), HexB(stream))
 	}
-	// locate the frame at which the panic happened
-	s := stream
-	for i := 0; i < len(classes)-1; i++ {
-		sz, n := protowire.ConsumeVarint(s)
-		if n < 0 || sz > uint64(len(s)-n) {
-			c.PropFail("C27", "panic in UnmarshalFrom", HexZ(max), HexB(stream))
-			return
-		}
-		s = s[n+int(sz):]
-	}
-	sz, n := protowire.ConsumeVarint(s)
-	if n > 0 && sz > 1<<48 && sz <= delimEffMax(max) {
-		c.Known("F15", "C27", "UnmarshalFrom panics (makeslice: len out of range) for a size above 2^48 that MaxSize admits")
-		c.Stat("known_F15")
-		return
-	}
-	c.PropFail("C27", "panic in UnmarshalFrom", HexZ(max), HexB(stream))
 }
 
 // ---- structured streams: real messages, every truncation point, MaxSize around the sizes
@@ -599,43 +583,9 @@ func delimMalformed(c *Ctx, g *wpiGen) {
 	max := maxes[c.Intn(len(maxes))]
 	kind := delimKinds(c)
 	terr := c.Intn(8) == 0
-	// never let the implementation allocate an absurd amount: walk the frames the
-	// way the reader will and skip streams that would request > 64 MiB (and <= 2^48, where it panics instead)
-	if !delimSafe(s, max) {
-		c.Stat("malformed_skipped_alloc")
-		return
-	}
 	cl := delimRawRead(c, max, terr, kind, s)
-	delimKnownF15(c, cl, max, s)
+	delimNoPanic(c, cl, max, s)
 	c.Stat("malformed_" + strings.SplitN(cl[len(cl)-1], ":", 2)[0])
-}
-
-func delimSafe(s []byte, max int64) bool {
-	for len(s) > 0 {
-		k := len(s)
-		if k > 10 {
-			k = 10
-		}
-		for i := 0; i < k; i++ {
-			if s[i] < 0x80 {
-				k = i + 1
-				break
-			}
-		}
-		size, n := protowire.ConsumeVarint(s[:k])
-		if n < 0 {
-			return true
-		}
-		s = s[n:]
-		if size > delimEffMax(max) {
-			return true
-		}
-		if size > uint64(len(s)) {
-			return size <= 64<<20 || size > 1<<48
-		}
-		s = s[size:]
-	}
-	return true
 }
 
 // ---- marshal: frame shape against the model, writer errors returned unchanged
